@@ -534,7 +534,7 @@ func c16GenGram(r *rand.Rand) *c16Gram {
 			rule.parts = gn.seq(i, 0, n, leads[nl])
 			nl++
 			rule.end = gn.newAct(0)
-			if !gn.hasMid && r.Intn(5) == 0 && len(rule.parts) > 1 {
+			if !gn.hasMid && r.Intn(3) == 0 && len(rule.parts) > 1 {
 				// a state marker somewhere after the first symbol
 				at := 1 + r.Intn(len(rule.parts))
 				gn.marks++
@@ -748,6 +748,13 @@ func c16PickRefsFor(r *rand.Rand, a *c16Act, scopeParts []*c16Part, firstOK bool
 			ref = c16Ref{id: "left()", prop: 'o'}
 		}
 		a.refs = append(a.refs, ref)
+	}
+	// aliases that span several positions (groups, choices): always look at both ends
+	for _, nm := range names {
+		if len(a.visible[nm]) > 1 && r.Intn(3) != 0 {
+			a.refs = append(a.refs, c16Ref{id: nm, prop: 'e'}, c16Ref{id: nm, prop: 'o'})
+			break
+		}
 	}
 }
 
@@ -1464,8 +1471,10 @@ func c16(c *Ctx) {
 			gp := compileTM(name, g.TM(name, opt), TMOpts{Optimize: opt})
 			if gp.Err != nil {
 				c.Count("grammar rejected: " + firstWords(errSummary(gp.Err), 5))
-				if strings.Contains(gp.Err.Error(), "internal error") || strings.Contains(gp.Err.Error(), "panic") {
-					c.Violate("compiler/generator failed on a well-formed grammar: "+errSummary(gp.Err), gp.TM)
+				if !strings.Contains(errSummary(gp.Err), "conflicts: ") {
+					// every reference of the generated grammars names a symbol of its rule: only LALR conflicts are a
+					// legitimate reason to reject them
+					c.Violate("compiler/generator rejected a grammar whose references are all well-formed: "+errSummary(gp.Err), gp.TM)
 				}
 				continue
 			}
